@@ -60,6 +60,7 @@ type violationReport struct {
 	Index  uint64          `json:"index"`
 	Replay *kit.ReplayFile `json:"replay"`
 	Count  int             `json:"count"`
+	path   string
 }
 
 type workerResult struct {
@@ -117,6 +118,7 @@ func worker(t *testing.T) {
 	scale := envU("SIM_SCALE_PERMILLE", 1000)
 	budget := time.Duration(envU("SIM_BUDGET_S", 0)) * time.Second
 	wantHashes := os.Getenv("SIM_LOGHASH") != ""
+	watchdog := time.Duration(envU("SIM_WATCHDOG_S", 10)) * time.Second
 	journal, _ := os.Create(os.Getenv("SIM_OUT") + ".journal")
 	res := &workerResult{Worker: w, PerPhase: map[string]uint64{}, Faults: map[string]int{}, Probes: map[string]int{},
 		Inconclusive: map[string]int{}, Violations: map[string]*violationReport{}}
@@ -126,6 +128,26 @@ func worker(t *testing.T) {
 	nt := map[uint64]struct{}{}
 	il := map[uint64]struct{}{}
 	minimised := 0
+	finish := func() {
+		for h := range nt {
+			res.NonTrivial = append(res.NonTrivial, h)
+		}
+		for h := range il {
+			res.Interleavings = append(res.Interleavings, h)
+		}
+		res.WallS = time.Since(start).Seconds()
+		b, err := json.Marshal(res)
+		if err != nil {
+			kit.Bug("worker result: %v", err)
+		}
+		if err := os.WriteFile(os.Getenv("SIM_OUT"), b, 0o644); err != nil {
+			kit.Bug("worker result: %v", err)
+		}
+		if journal != nil {
+			journal.Close()
+			os.Remove(os.Getenv("SIM_OUT") + ".journal")
+		}
+	}
 	onlyPhase, onlyIndex := os.Getenv("SIM_ONLY_PHASE"), envU("SIM_ONLY_INDEX", 0)
 	for _, ph := range p.Phases() {
 		n := ph.Count(tier)
@@ -148,9 +170,20 @@ func worker(t *testing.T) {
 				fmt.Fprintf(journal, "%s %d\n", ph.Name, i)
 			}
 			tape := phaseTape(p, ph, base, i)
-			wd := time.AfterFunc(60*time.Second, func() {
-				fmt.Fprintf(os.Stderr, "WATCHDOG: run %s/%d did not finish within 60 s of wall time (a simulated run takes milliseconds)\n", ph.Name, i)
-				os.Exit(5)
+			wd := time.AfterFunc(watchdog, func() {
+				// The run is stuck where the simulator has no control (a goroutine blocked on a lock, so that quiescence
+				// is never reached, or a loop that reaches no hook). Everything else in this process is blocked, so its
+				// state can be read. Report it as a violation with the tape recorded so far, save what this worker has, exit.
+				msg := fmt.Sprintf("run %s/%d did not finish within %v of wall time (a simulated run takes milliseconds): a goroutine is stuck outside the simulator's control (blocked on a lock, so quiescence is never reached) or loops without reaching any hook", ph.Name, i, watchdog)
+				fmt.Fprintln(os.Stderr, "WATCHDOG:", msg)
+				rf := &kit.ReplayFile{Property: p.ID(), Class: "stuck", Signature: "stuck:no-quiescence", Message: msg,
+					VerifSeed: base, RunIndex: i, RunSeed: tape.Seed, Tier: tier, Phase: ph.Name, Lanes: tape.Snapshot(), Fixed: tape.Fixed}
+				if _, ok := res.Violations["stuck|stuck:no-quiescence"]; !ok {
+					res.Violations["stuck|stuck:no-quiescence"] = &violationReport{Phase: ph.Name, Index: i, Replay: rf, Count: 1}
+				}
+				res.Truncated = true
+				finish()
+				os.Exit(0)
 			})
 			out := kit.ExecOnce(t, p, tape, tier)
 			wd.Stop()
@@ -221,24 +254,7 @@ func worker(t *testing.T) {
 			res.Violations[key] = &violationReport{Phase: ph.Name, Index: i, Replay: rf, Count: 1}
 		}
 	}
-	for h := range nt {
-		res.NonTrivial = append(res.NonTrivial, h)
-	}
-	for h := range il {
-		res.Interleavings = append(res.Interleavings, h)
-	}
-	res.WallS = time.Since(start).Seconds()
-	b, err := json.Marshal(res)
-	if err != nil {
-		t.Fatal(err)
-	}
-	if err := os.WriteFile(os.Getenv("SIM_OUT"), b, 0o644); err != nil {
-		t.Fatal(err)
-	}
-	if journal != nil {
-		journal.Close()
-		os.Remove(os.Getenv("SIM_OUT") + ".journal")
-	}
+	finish()
 }
 
 func replayOf(orig *kit.Tape, lanes map[string][]uint32) *kit.Tape {
@@ -299,7 +315,13 @@ func replay(t *testing.T) {
 			}
 		}
 	}
+	wd := time.AfterFunc(time.Duration(envU("SIM_WATCHDOG_S", 10))*time.Second, func() {
+		fmt.Printf("REPLAY-RESULT class=stuck signature=stuck:no-quiescence\n")
+		fmt.Printf("REPLAY-MESSAGE the run did not finish: a goroutine is stuck outside the simulator's control (blocked on a lock) or loops without reaching any hook\n")
+		os.Exit(0)
+	})
 	out := kit.ExecOnce(t, p, tape, rf.Tier)
+	wd.Stop()
 	if os.Getenv("SIM_VERBOSE") != "" {
 		for _, l := range out.Log {
 			fmt.Println("  |", l)
@@ -394,6 +416,7 @@ func master() int {
 	nt := map[uint64]struct{}{}
 	il := map[uint64]struct{}{}
 	hashes := map[string]uint64{}
+	candidates := map[string][]*violationReport{} // per class|signature: each worker's first (minimised) instance
 	for _, r := range results {
 		merged.Evaluations += r.Evaluations
 		merged.SimSteps += r.SimSteps
@@ -429,15 +452,7 @@ func master() int {
 		}
 		merged.Nondet = append(merged.Nondet, r.Nondet...)
 		for k, v := range r.Violations {
-			if cur, ok := merged.Violations[k]; !ok {
-				merged.Violations[k] = v
-			} else {
-				n := cur.Count + v.Count
-				if v.Phase < cur.Phase || (v.Phase == cur.Phase && v.Index < cur.Index) {
-					merged.Violations[k] = v
-				}
-				merged.Violations[k].Count = n
-			}
+			candidates[k] = append(candidates[k], v)
 		}
 	}
 	if len(merged.Samples) > 3 {
@@ -484,11 +499,17 @@ func master() int {
 	// violations: write replay files, verify each in a fresh process
 	head := repoHead()
 	var keys []string
-	for k := range merged.Violations {
+	for k, c := range candidates {
 		keys = append(keys, k)
+		sort.Slice(c, func(i, j int) bool {
+			if c[i].Phase != c[j].Phase {
+				return c[i].Phase < c[j].Phase
+			}
+			return c[i].Index < c[j].Index
+		})
 	}
 	sort.Strings(keys)
-	unlisted, listed := 0, map[string]int{}
+	unlisted, dropped, listed := 0, 0, map[string]int{}
 	os.MkdirAll(filepath.Join(verif, "replays"), 0o755)
 	if old, _ := filepath.Glob(filepath.Join(verif, "replays", id+"-*.json")); os.Getenv("SIM_NO_EVIDENCE") == "" {
 		for _, f := range old {
@@ -497,23 +518,41 @@ func master() int {
 	}
 	var lines []string
 	for _, k := range keys {
-		v := merged.Violations[k]
-		v.Replay.RepoHead = head
-		name := fmt.Sprintf("%s-%s-%016x.json", id, sanitize(v.Replay.Class), kit.HashString(k)^v.Replay.RunSeed)
-		path := filepath.Join(verif, "replays", name)
-		if err := os.WriteFile(path, v.Replay.JSON(), 0o644); err != nil {
-			fmt.Fprintln(os.Stderr, "write replay:", err)
-			return 2
+		// verify in a fresh process; try up to three instances of this (class, signature) until one reproduces
+		var v *violationReport
+		total := 0
+		for _, c := range candidates[k] {
+			total += c.Count
 		}
-		cmd := exec.Command(self, "-test.run", "^TestSim$", "-test.timeout", "0", "-test.cpu", "1")
-		cmd.Env = append(os.Environ(), "SIM_ROLE=replay", "SIM_FILE="+path, "GOMAXPROCS=2")
-		ob, _ := cmd.CombinedOutput()
-		want := fmt.Sprintf("REPLAY-RESULT class=%s signature=%s", v.Replay.Class, v.Replay.Signature)
-		if !strings.Contains(string(ob), want+"\n") {
-			fmt.Fprintf(os.Stderr, "replay of %s in a fresh process did not reproduce (%s); output:\n%s\n", path, want, lastBytes(ob, 2000))
-			infra++
+		for n, c := range candidates[k] {
+			if n >= 3 {
+				break
+			}
+			c.Replay.RepoHead = head
+			name := fmt.Sprintf("%s-%s-%016x.json", id, sanitize(c.Replay.Class), kit.HashString(k)^c.Replay.RunSeed)
+			path := filepath.Join(verif, "replays", name)
+			if err := os.WriteFile(path, c.Replay.JSON(), 0o644); err != nil {
+				fmt.Fprintln(os.Stderr, "write replay:", err)
+				return 2
+			}
+			cmd := exec.Command(self, "-test.run", "^TestSim$", "-test.timeout", "0", "-test.cpu", "1")
+			cmd.Env = append(os.Environ(), "SIM_ROLE=replay", "SIM_FILE="+path, "GOMAXPROCS=2")
+			ob, _ := cmd.CombinedOutput()
+			want := fmt.Sprintf("REPLAY-RESULT class=%s signature=%s", c.Replay.Class, c.Replay.Signature)
+			if strings.Contains(string(ob), want+"\n") {
+				v = c
+				v.Count = total
+				v.path = path
+				break
+			}
+			fmt.Fprintf(os.Stderr, "warning: replay of %s in a fresh process did not reproduce (%s); not reported\n", path, want)
+			os.Remove(path)
+		}
+		if v == nil {
+			dropped++
 			continue
 		}
+		path := v.path
 		if kf := matchKnown(v.Replay); kf != nil {
 			listed[kf.Key] += v.Count
 			lines = append(lines, fmt.Sprintf("KNOWN-FINDING: property=%s %s [key=%s, seen %d times, e.g. replay=%s]", id, kf.What, kf.Key, v.Count, path))
@@ -523,16 +562,26 @@ func master() int {
 		lines = append(lines, fmt.Sprintf("VIOLATION property=%s replay=%s", id, path))
 		lines = append(lines, fmt.Sprintf("  class=%s signature=%s seen=%d phase=%s run=%d: %s", v.Replay.Class, v.Replay.Signature, v.Count, v.Phase, v.Index, v.Replay.Message))
 	}
+	if len(dead) > 2 {
+		dead = dead[:2]
+	}
 	for _, d := range dead {
 		// a worker that dies is re-run alone on that index: a reproducible death is a violation of the property being run
 		if v := rerunDead(self, id, tier, base, d, verif, head); v != "" {
 			unlisted++
-			infra--
+			infra = 0 // the other dead workers are explained by the same reproducible death
 			lines = append(lines, v)
 		}
 	}
 	if len(merged.Nondet) > 0 {
-		fmt.Fprintf(os.Stderr, "harness nondeterminism: %d violation(s) did not replay identically from their own tape:\n  %s\n", len(merged.Nondet), strings.Join(merged.Nondet, "\n  "))
+		// A violation that does not replay from its own tape is never reported. If other violations did replay (each was
+		// re-executed in a fresh process above) they stand on their own; otherwise nothing can be claimed either way.
+		fmt.Fprintf(os.Stderr, "warning: %d violation(s) did not replay identically from their own tape and are not reported (the code under test has a source of nondeterminism the simulator does not control):\n  %s\n", len(merged.Nondet), strings.Join(firstN(merged.Nondet, 5), "\n  "))
+		if unlisted == 0 {
+			infra++
+		}
+	}
+	if dropped > 0 && unlisted == 0 {
 		infra++
 	}
 
@@ -581,7 +630,7 @@ func master() int {
 		"wall_s":      wall,
 		"violations":  unlisted,
 	}
-	if infra == 0 && os.Getenv("SIM_NO_EVIDENCE") == "" {
+	if (infra == 0 || unlisted > 0) && os.Getenv("SIM_NO_EVIDENCE") == "" {
 		os.MkdirAll(filepath.Join(verif, "evidence"), 0o755)
 		b, _ := json.MarshalIndent(ev, "", " ")
 		if err := os.WriteFile(filepath.Join(verif, "evidence", id+".json"), append(b, '\n'), 0o644); err != nil {
@@ -601,11 +650,11 @@ func master() int {
 		fmt.Println(l)
 	}
 	switch {
+	case unlisted > 0:
+		return 1 // every VIOLATION line above was reproduced from its replay file in a fresh process
 	case infra > 0:
 		fmt.Println("RESULT: harness trouble, nothing is claimed (exit 2)")
 		return 2
-	case unlisted > 0:
-		return 1
 	}
 	fmt.Println("RESULT: property held on everything explored")
 	return 0
@@ -642,6 +691,13 @@ func rerunDead(self, id, tier string, base uint64, where, verif, head string) st
 	path := filepath.Join(verif, "replays", fmt.Sprintf("%s-process-death-%s-%s.json", id, f[0], f[1]))
 	os.WriteFile(path, rf.JSON(), 0o644)
 	return fmt.Sprintf("VIOLATION property=%s replay=%s\n  class=process-death phase=%s run=%s: %s", id, path, f[0], f[1], firstLine(lastOut))
+}
+
+func firstN(s []string, n int) []string {
+	if len(s) > n {
+		return s[:n]
+	}
+	return s
 }
 
 func firstLine(b []byte) string {
